@@ -205,3 +205,63 @@ macro_rules! private_label_order {
 }
 private_label_order!(c16_privlabel_algorithm, iana::Algorithm);
 private_label_order!(c16_privlabel_cwt_claim, iana::CwtClaimName);
+
+/// (d'') Text x Text with multi-byte UTF-8 contents: strings of <= 2 characters, each drawn from a
+/// palette of 1-, 2-, 3- and 4-byte characters.  The order must be that of the encodings, i.e.
+/// (UTF-8 byte length, bytes) -- not (number of characters, ...).
+fn palette_string(k: u8, n: u8) -> alloc::string::String {
+    let c = |i: u8| match i & 3 {
+        0 => "a",
+        1 => "\u{e9}",
+        2 => "\u{20ac}",
+        _ => "\u{1f600}",
+    };
+    let mut s = alloc::string::String::new();
+    if n >= 1 {
+        s.push_str(c(k));
+    }
+    if n >= 2 {
+        s.push_str(c(k >> 2));
+    }
+    s
+}
+
+fn ref_bytes_order(a: &[u8], b: &[u8]) -> Ordering {
+    if a.len() != b.len() {
+        return if a.len() < b.len() { Ordering::Less } else { Ordering::Greater };
+    }
+    let mut i = 0;
+    while i < a.len() {
+        if a[i] != b[i] {
+            return if a[i] < b[i] { Ordering::Less } else { Ordering::Greater };
+        }
+        i += 1;
+    }
+    Ordering::Equal
+}
+
+macro_rules! multibyte_order {
+    ($name:ident, $mk:expr) => {
+        #[kani::proof]
+        #[kani::unwind(10)]
+        #[kani::stub(alloc::fmt::format, format_stub)]
+        fn $name() {
+            let (ka, kb): (u8, u8) = (kani::any(), kani::any());
+            let (na, nb): (u8, u8) = (kani::any(), kani::any());
+            kani::assume(na <= 2 && nb <= 2 && ka < 16 && kb < 16);
+            let (sa, sb) = (palette_string(ka, na), palette_string(kb, nb));
+            let want = ref_bytes_order(sa.as_bytes(), sb.as_bytes());
+            let mk = $mk;
+            let (la, lb) = (mk(sa), mk(sb));
+            let c = la.cmp(&lb);
+            assert_eq!(c, want);
+            assert_eq!(c == Ordering::Equal, la == lb);
+            // one 3-byte character against two 1-byte characters: bytes decide, not characters
+            kani::cover!(na == 1 && nb == 2 && c == Ordering::Greater);
+            kani::cover!(na == 2 && nb == 2 && c == Ordering::Less);
+        }
+    };
+}
+multibyte_order!(c16_label_text_multibyte, |s: alloc::string::String| Label::Text(s));
+multibyte_order!(c16_reglabel_text_multibyte, |s: alloc::string::String| RegisteredLabel::<iana::KeyType>::Text(s));
+multibyte_order!(c16_privlabel_text_multibyte, |s: alloc::string::String| RegisteredLabelWithPrivate::<iana::Algorithm>::Text(s));
